@@ -225,7 +225,8 @@ func (ex *Exec) boxFn(t types.Type) (string, string) {
 func (ex *Exec) doTypeAssert(i *ssa.TypeAssert) {
 	x := ex.val(i.X)
 	at := ex.typ(i.AssertedType)
-	if _, isIface := at.Underlying().(*types.Interface); isIface {
+	_, isTP := types.Unalias(at).(*types.TypeParam)
+	if _, isIface := at.Underlying().(*types.Interface); isIface && !isTP {
 		// interface-to-interface: value unchanged; success unknown unless non-nil any
 		ok := ex.vc.fresh(ex.pfx+i.Name()+"_ok", "Bool")
 		ex.vc.assume(sImp(ok, "(not (= "+x.T+" 0))"))
@@ -240,6 +241,7 @@ func (ex *Exec) doTypeAssert(i *ssa.TypeAssert) {
 	fn, tag := ex.boxFn(at)
 	ok := ex.vc.define(ex.pfx+i.Name()+"_ok", "Bool", sAnd("(not (= "+x.T+" 0))", sEq("(dyntag "+x.T+")", tag)))
 	payload := ex.vc.define(ex.pfx+i.Name()+"_v", ex.vc.sortOf(at), sIte(ok, "(un"+fn+" "+x.T+")", ex.vc.zeroOf(at)))
+	ex.vc.assume(sImp(ex.curReach, ex.typeInv(payload, at, ex.curState)))
 	if i.CommaOk {
 		ex.vals[i] = Val{Tup: []Val{{T: payload}, {T: ok}}}
 	} else {
